@@ -111,9 +111,12 @@ Family(k) ==
       alone == IF Selected(k) THEN {Case(k, "only-bit", Base(k, {b}, "full", none)) : b \in B}
                                    \cup {Case(k, "without-bit", Base(k, B \ {b}, "full", none)) : b \in B} ELSE {}
       strs == IF Selected(k) /\ StrParams(k) # {}
-                THEN LET j == CHOOSE m \in StrParams(k) : \A m2 \in StrParams(k) : m <= m2 IN
-                     {Case(k, "string-length", Base(k, B, "full", Pos(k, j) :> StrVal(Schema[k].params[j], n, n % 7))) :
-                        n \in {x \in StrLens : x > 0 \/ ~Schema[k].params[j].flagged \/ Schema[k].params[j].base = "bytes"}} ELSE {}
+                THEN \* the first string and the first bytes parameter (the writers differ)
+                     LET FirstOf(base) == {m \in StrParams(k) : Schema[k].params[m].base = base /\
+                                             \A m2 \in StrParams(k) : Schema[k].params[m2].base = base => m <= m2} IN
+                     UNION {{Case(k, "string-length", Base(k, B, "full", Pos(k, j) :> StrVal(Schema[k].params[j], n, n % 7))) :
+                        n \in {x \in StrLens : x > 0 \/ ~Schema[k].params[j].flagged \/ Schema[k].params[j].base = "bytes"}} :
+                           j \in FirstOf("string") \cup FirstOf("bytes")} ELSE {}
       scal == IF Selected(k) /\ ScalarParams(k) # {}
                 THEN {Case(k, "scalar-class", Base(k, B, "full",
                         [q \in {Pos(k, j) : j \in ScalarParams(k)} |->
